@@ -96,7 +96,7 @@ def run(ev, vd):
             # (as on a real interconnect) and small messages can finish before earlier large ones
             for rep in range(4 if tier() == "thorough" else 2):
                 run_id += 1
-                prefix = os.path.join(BUILD, "tmp", "dnet_r%d" % run_id)
+                prefix = os.path.join(BUILD, "tmp", "dnet_%d_r%d" % (os.getpid(), run_id))
                 for p in glob.glob(prefix + ".*.ndjson"):
                     os.remove(p)
                 env2 = dict(env, OMPI_MCA_btl_vader_single_copy_mechanism="none") if rep % 2 == 1 else env
